@@ -15,3 +15,4 @@ INVARIANTS
   NoEffectWithoutToken
   UnexpectedTokenRefused
   ValidTokenSuffices
+  SpellingNeverWidens
